@@ -283,3 +283,69 @@ func H_C04_BIP68() {
 		zzverif.Assert("C04.bip68.height-lock", uint64(cheight)+uint64(seq&0xffff) <= height)
 	}
 }
+
+// C04: the block signature-operation cost limit. The per-script counters are replaced by arbitrary values (they
+// are decided against Core's by H_C04_SigOpCount*); a connected block has 4*legacy + 4*P2SH + witness <= 80000,
+// and a block refused for no other reason exceeds it.
+func H_C04_SigOpLimit() {
+	zzverif.IntMode()
+	const height = 840000
+	zzverif.Bound("block shape", "coinbase + 1 transaction with 1 input (confirmed P2SH output) and 1 output; counters arbitrary in 0..30000 per script")
+	zzverif.Stub("btc.GetSigOpCount, btc.GetP2SHSigOpCount, (*btc.Tx).CountWitnessSigOps return arbitrary counts")
+	if !zzverif.Symbolic() {
+		return // the counters cannot be replaced natively
+	}
+	pid := h_id(0xA1)
+	p2sh := append(append([]byte{0xa9, 0x14}, make([]byte, 20)...), 0x87)
+	ch := new(Chain)
+	ch.Unspent = new(utxo.UnspentDB)
+	ch.Unspent.UnwindBufLen = 2560
+	zzverif.Replace("(*utxo.UnspentDB).UnspentGet", func(db *utxo.UnspentDB, po *btc.TxPrevOut) *btc.TxOut {
+		if po.Hash != pid || po.Vout != 0 {
+			return nil
+		}
+		return &btc.TxOut{Value: 1000, BlockHeight: 1000, VoutCount: 1, Pk_script: p2sh}
+	})
+	var legacy, p2shn, wit uint64
+	zzverif.Replace("btc.GetSigOpCount", func(scr []byte, acc bool) uint {
+		v := zzverif.Range64("legacy-count", 30001)
+		legacy += v
+		return uint(v)
+	})
+	zzverif.Replace("btc.GetP2SHSigOpCount", func(scr []byte) uint {
+		v := zzverif.Range64("p2sh-count", 30001)
+		p2shn += v
+		return uint(v)
+	})
+	zzverif.Replace("(*btc.Tx).CountWitnessSigOps", func(tx *btc.Tx, inp int, spk []byte) uint {
+		v := zzverif.Range64("witness-count", 30001)
+		wit += v
+		return uint(v)
+	})
+	script.HookVerifyTxScript = func(pk []byte, c *script.SigChecker, flags uint32) bool { return true }
+	defer func() { script.HookVerifyTxScript = nil }()
+	bl := new(btc.Block)
+	bl.Height = height
+	bl.VerifyFlags = script.VER_P2SH | script.VER_WITNESS
+	cb := new(btc.Tx)
+	cb.Hash.Hash = h_id(0xC0)
+	cb.TxIn = []*btc.TxIn{{Input: btc.TxPrevOut{Vout: 0xffffffff}, ScriptSig: []byte{1, 1}}}
+	cb.TxOut = []*btc.TxOut{{Value: 0, Pk_script: []byte{0x51}, WasCoinbase: true}}
+	tx := new(btc.Tx)
+	tx.Hash.Hash = h_id(0xD1)
+	tx.Version = 1
+	tx.TxIn = []*btc.TxIn{{Input: btc.TxPrevOut{Hash: pid, Vout: 0}, ScriptSig: []byte{1, 0x51}, Sequence: 0xffffffff}}
+	tx.TxOut = []*btc.TxOut{{Value: 0, Pk_script: []byte{0x51}}}
+	bl.Txs = []*btc.Tx{cb, tx}
+	bl.TotalInputs = 1
+	_, cost, e := ch.ProcessBlockTransactions(bl, height, height)
+	total := 4*legacy + 4*p2shn + wit
+	if e != nil {
+		zzverif.Reach("refused")
+		zzverif.Assert("C04.sigops.refused-only-above-limit", total > 80000)
+		return
+	}
+	zzverif.Reach("connected")
+	zzverif.Assert("C04.sigops.limit", total <= 80000)
+	zzverif.Assert("C04.sigops.cost-reported", uint64(cost) == total)
+}
